@@ -67,6 +67,11 @@ var stmts = []item{
 	{"shadow-in-if", "if x := 77; x > 0 {\n\tShow(\"inner\", x)\n}", []string{"x"}, ""},
 	{"shadow-in-loop", "for x := 0; x < 2; x++ {\n\tShow(\"inner\", x)\n}", []string{"x"}, ""},
 	{"shadow-in-closure", "func() {\n\tx := 55\n\tShow(\"inner\", x)\n}()", []string{"x"}, ""},
+	// var declaration statements in the middle of a statement chunk, used by later chunks
+	{"var-stmt", "y0 := 1\n;;\nvar total int\n;;\ntotal = x + y0\n;;\nShow(\"total\", total)", []string{"x"}, ""},
+	{"var-stmt-init", "x++\n;;\nvar label = \"sum\"\n;;\nlabel += \"!\"\n;;\nShow(label, x)", []string{"x"}, ""},
+	{"var-stmt-multi", "x++\n;;\nvar u, w = x, x * 2\n;;\nu += w\n;;\nShow(\"uw\", u, w)", []string{"x"}, ""},
+	{"define-then-closure", "z := x\n;;\ngz := func() int { return z * 2 }\n;;\nz++\n;;\nShow(\"gz\", gz(), z)", []string{"x"}, ""},
 	// closures created by a loop of a top-level statement, called by later statements
 	{"loop-closures", "for i := 0; i < 3; i++ {\n\tfs = append(fs, func() int { return i * 10 })\n}", []string{"fs", "calls"}, ""},
 	{"range-closures", "for k, v := range []string{\"a\", \"bb\"} {\n\tfs = append(fs, func() int { return k*100 + len(v) })\n}", []string{"fs", "calls"}, ""},
@@ -150,7 +155,7 @@ func programs(maxDecls, maxStmts int) []prog {
 		seqs = func(prefix []item) {
 			var st, sn []string
 			for _, s := range prefix {
-				st = append(st, s.Text)
+				st = append(st, strings.Split(s.Text, "\n;;\n")...) // an item may consist of several statements (cut points between them)
 				sn = append(sn, s.Name)
 			}
 			ps = append(ps, prog{Name: strings.Join(names, ",") + " | " + strings.Join(sn, ";"), Decls: dtexts, Stmts: append(st, final)})
@@ -480,6 +485,17 @@ func main() {
 		nd, ns := len(p.Decls), len(p.Stmts)
 		for dm := 0; dm < 1<<(nd-1); dm++ {
 			for sm := 0; sm < 1<<(ns-1); sm++ {
+				// interactive input is a list of declarations or a list of statements: a chunk that starts with a var
+				// declaration and goes on with statements is neither (the front end reads it as declarations)
+				mixed := false
+				for _, c := range chunks(p.Stmts, sm) {
+					if strings.HasPrefix(c[0], "var ") && len(c) > 1 {
+						mixed = true
+					}
+				}
+				if mixed {
+					continue
+				}
 				for _, m := range []string{"eval", "compile", "ast"} {
 					runs = append(runs, run{P: p, Mode: m, DMask: dm, SMask: sm})
 				}
@@ -611,7 +627,7 @@ func main() {
 	r.Set("distinct_nontrivial", len(res.Sets["outputs"]))
 	r.Set("whole_programs_rejected_runs", res.Counts["whole_program_rejected"])
 	r.Set("exhaustive", true)
-	r.Set("rule", fmt.Sprintf("programs = every dependency-closed subset of <= %d of 18 declaration items (define-before-use order) x every sequence (20 statement items, incl. blocks that shadow a global) of <= %d applicable statements + a final Show of all declared globals; every cut of the declaration section and of the statement section into consecutive chunks x {successive Eval, Compile+Execute, CompileAST+Execute}; whole program through Compile+Execute, CompileAST, EvalPath on disk and on MapFS; every cut of the declaration section written as the files of one package directory (file names in chunk order and in reverse chunk order, main in the last / first file) and loaded by EvalPath(dir) on disk and on MapFS; reference = Eval of the whole program in a fresh interpreter; states = distinct whole-program outputs", maxD, maxS))
+	r.Set("rule", fmt.Sprintf("programs = every dependency-closed subset of <= %d of 18 declaration items (define-before-use order) x every sequence (24 statement items, incl. blocks that shadow a global and var statements in the middle of a chunk used by later chunks) of <= %d applicable statements + a final Show of all declared globals; every cut of the declaration section and of the statement section into consecutive chunks x {successive Eval, Compile+Execute, CompileAST+Execute}; whole program through Compile+Execute, CompileAST, EvalPath on disk and on MapFS; every cut of the declaration section written as the files of one package directory (file names in chunk order and in reverse chunk order, main in the last / first file) and loaded by EvalPath(dir) on disk and on MapFS; reference = Eval of the whole program in a fresh interpreter; states = distinct whole-program outputs", maxD, maxS))
 	r.Assumptions = []string{"a chunk is either declarations or statements (declarations precede statements); forward references across a cut are not demanded", "reference = the whole program evaluated once (C01 binds that to the compiler)"}
 	for _, i := range []int{0, len(runs) / 2, len(runs) - 1} {
 		r.Sample(map[string]interface{}{"program": runs[i].P.Name, "mode": runs[i].Mode, "decl_cuts": runs[i].DMask, "stmt_cuts": runs[i].SMask, "decls": runs[i].P.Decls, "stmts": runs[i].P.Stmts})
